@@ -162,9 +162,16 @@ class CellWrapper:
             last_adapted_col = col
 
         # Fit columns into available width
+        remaining_width = available_width
+        remaining_columns = len(
+            [length for length in long_column_lengths if length is not None]
+        )
+
         for col, length in enumerate(long_column_lengths):
             if length is None:
                 continue
+
+            remaining_columns -= 1
 
             # Keep ratios of column lengths and distribute them among the
             # available width
@@ -178,6 +185,12 @@ class CellWrapper:
                     self._column_lengths
                 )
 
+            # Every column gets at least one character and leaves at least one
+            # character to each column that still has to be fitted
+            self._column_lengths[col] = max(
+                1, min(self._column_lengths[col], remaining_width - remaining_columns)
+            )
+
             self._wrap_column(col, self._column_lengths[col], formatter)
 
             # Recalculate the column length based on the actual wrapped length
@@ -185,6 +198,7 @@ class CellWrapper:
 
             # Recalculate the actual width based on the changed length.
             actual_width = actual_width - length + self._column_lengths[col]
+            remaining_width -= self._column_lengths[col]
 
         self._total_width = sum(self._column_lengths)
 
